@@ -92,7 +92,7 @@ if __name__ == "__main__":
         d = os.path.join(ROOT, "seeded", name)
         os.makedirs(d, exist_ok=True)
         for f in os.listdir(r["source"]):
-            if os.path.isfile(os.path.join(r["source"], f)):
+            if os.path.isfile(os.path.join(r["source"], f)) and os.path.realpath(r["source"]) != os.path.realpath(d):
                 shutil.copy2(os.path.join(r["source"], f), os.path.join(d, f))
         json.dump(r, open(os.path.join(d, "meta.json"), "w"), indent=1)
     print(json.dumps(r, indent=1)[:4000])
